@@ -34,6 +34,7 @@ type VerifC16Outcome struct {
 }
 
 type c16Manifest struct {
+	sys  resolve.System
 	reqs []VerifC16Req
 	hook func()
 	once sync.Once
@@ -41,7 +42,7 @@ type c16Manifest struct {
 
 func (m *c16Manifest) FilePath() string        { return "package.json" }
 func (m *c16Manifest) Root() resolve.Version    { return resolve.Version{} }
-func (m *c16Manifest) System() resolve.System   { return resolve.NPM }
+func (m *c16Manifest) System() resolve.System   { return m.sys }
 func (m *c16Manifest) Requirements() []resolve.RequirementVersion {
 	if m.hook != nil {
 		m.once.Do(m.hook)
@@ -49,7 +50,7 @@ func (m *c16Manifest) Requirements() []resolve.RequirementVersion {
 	var out []resolve.RequirementVersion
 	for _, r := range m.reqs {
 		rv := resolve.RequirementVersion{VersionKey: resolve.VersionKey{
-			PackageKey: resolve.PackageKey{System: resolve.NPM, Name: r.Name}, Version: r.Version, VersionType: resolve.Requirement}}
+			PackageKey: resolve.PackageKey{System: m.sys, Name: r.Name}, Version: r.Version, VersionType: resolve.Requirement}}
 		if r.KnownAs != "" {
 			rv.Type.AddAttr(dep.KnownAs, r.KnownAs)
 		}
@@ -63,10 +64,12 @@ func (m *c16Manifest) EcosystemSpecific() any                       { return nil
 func (m *c16Manifest) PatchRequirement(resolve.RequirementVersion) error {
 	return errors.New("c16Manifest is read-only")
 }
-func (m *c16Manifest) Clone() manifest.Manifest { return &c16Manifest{reqs: append([]VerifC16Req(nil), m.reqs...)} }
+func (m *c16Manifest) Clone() manifest.Manifest {
+	return &c16Manifest{sys: m.sys, reqs: append([]VerifC16Req(nil), m.reqs...)}
+}
 
-func c16Resolved(reqs []VerifC16Req, vulns []string) *remediation.ResolvedManifest {
-	r := &remediation.ResolvedManifest{Manifest: &c16Manifest{reqs: reqs}}
+func c16Resolved(sys resolve.System, reqs []VerifC16Req, vulns []string) *remediation.ResolvedManifest {
+	r := &remediation.ResolvedManifest{Manifest: &c16Manifest{sys: sys, reqs: reqs}}
 	for _, id := range vulns {
 		r.Vulns = append(r.Vulns, resolution.Vulnerability{OSV: &osvschema.Vulnerability{ID: id}})
 	}
@@ -81,7 +84,13 @@ var VerifC16PreRead func()
 // VerifC16ComputePatches calls common.ComputePatches(patchFunc, resolved, groupIntroduced) where resolved is a
 // manifest with the given requirements and vulnerabilities and patchFunc forwards to fn (which may block).
 func VerifC16ComputePatches(reqs []VerifC16Req, vulns []string, grouped bool, fn func(ids []string) VerifC16Outcome) ([]result.Patch, error) {
-	resolved := c16Resolved(reqs, vulns)
+	return VerifC16ComputePatchesSys(resolve.NPM, reqs, vulns, grouped, fn)
+}
+
+// VerifC16ComputePatchesSys is VerifC16ComputePatches for a manifest of the given system: Patch.Compare's step 5 parses and
+// compares the target versions with resolved.Manifest.System().Semver() (npm, Maven, PyPI).
+func VerifC16ComputePatchesSys(sys resolve.System, reqs []VerifC16Req, vulns []string, grouped bool, fn func(ids []string) VerifC16Outcome) ([]result.Patch, error) {
+	resolved := c16Resolved(sys, reqs, vulns)
 	patchFunc := func(ids []string) common.StrategyResult {
 		if VerifC16PreRead != nil {
 			VerifC16PreRead()
@@ -93,7 +102,7 @@ func VerifC16ComputePatches(reqs []VerifC16Req, vulns []string, grouped bool, fn
 		case 2:
 			return common.StrategyResult{VulnIDs: ids, Err: errors.New("c16: strategy error")}
 		}
-		res := c16Resolved(o.Reqs, o.Vulns)
+		res := c16Resolved(sys, o.Reqs, o.Vulns)
 		res.Manifest.(*c16Manifest).hook = o.Delivered
 		return common.StrategyResult{VulnIDs: ids, Resolved: res}
 	}
